@@ -32,7 +32,6 @@ import contextlib
 import json
 import math
 import os
-import re
 import sys
 
 if os.environ.get('TORCHTREE_REPO') and os.environ['TORCHTREE_REPO'] != '/repo':
@@ -42,24 +41,27 @@ import torch
 
 import common as cm
 import symtorch.ext_c14  # noqa: F401  (remainder handler)
-from symtorch import SymTensor, from_ids, new_vars, tracing
+from symtorch import SymTensor, new_vars, tracing
 from symtorch.axioms import _addends, ground_axioms
 from symtorch.explore import _to_float, prove
 from vlib.core import main_for, pmap
 
 PID = 'C14'
+CHECK_BACK_TO_BACK = True  # also examine a second request issued WITHOUT any parameter-changed event in between
 C_LOG_SQRT_2PI = math.log(math.sqrt(2 * math.pi))  # the float constant in torch Normal.log_prob
 C_HALF_LOG_2PI = 0.5 * math.log(2 * math.pi)  # the float constant in torch Normal.entropy
 
-KINDS = ('normal', 'gamma_exp', 'gamma_poisson', 'lognormal_obs', 'lognormal_factor')
+KINDS = ('normal', 'gamma_exp', 'gamma_poisson', 'lognormal_obs', 'lognormal_factor', 'beta_binomial')
+EPS = torch.finfo(torch.float64).eps  # torch clamps Binomial probabilities to [EPS, 1 - EPS]
 SAMPLER = {'normal': 'Normal', 'gamma_exp': 'Gamma', 'gamma_poisson': 'Gamma', 'lognormal_obs': 'Normal',
-           'lognormal_factor': 'Normal'}
+           'lognormal_factor': 'Normal', 'beta_binomial': 'Beta'}
 DEFAULTS = {
     'normal': {'m0': [0.1], 's0': [1.5], 's': [0.8], 'y': [0.5, -0.2, 1.1]},
     'gamma_exp': {'a': [2.3], 'b': [1.7], 'y': [0.6, 1.3, 0.2]},
     'gamma_poisson': {'a': [2.3], 'b': [1.7], 'y': [2.0, 0.0, 3.0]},
     'lognormal_obs': {'m0': [0.1], 's0': [1.5], 's': [0.8], 'y': [0.7, 1.9, 1.2]},
     'lognormal_factor': {'m0': [0.1], 's0': [1.5], 's': [0.8], 'y': [0.5, -0.2, 1.1]},
+    'beta_binomial': {'a': [2.3], 'b': [1.7], 'N': [5.0], 'y': [2.0, 4.0, 1.0]},
 }
 
 
@@ -83,6 +85,10 @@ def block_json(kind, n, pre):
         prior = Dist(pre + 'prior', 'Gamma', P(pre + 'x', [0.9]), {'concentration': P(pre + 'a', D['a']), 'rate': P(pre + 'b', D['b'])})
         like = Dist(pre + 'like', 'Exponential' if kind == 'gamma_exp' else 'Poisson', P(pre + 'y', D['y'][:n]), {'rate': pre + 'x'})
         q = Dist(pre + 'q', 'Gamma', pre + 'x', {'concentration': P(pre + 'qa', [2.0]), 'rate': P(pre + 'qb', [2.0])})
+    elif kind == 'beta_binomial':
+        prior = Dist(pre + 'prior', 'Beta', P(pre + 'x', [0.4]), {'concentration1': P(pre + 'a', D['a']), 'concentration0': P(pre + 'b', D['b'])})
+        like = Dist(pre + 'like', 'Binomial', P(pre + 'y', D['y'][:n]), {'total_count': P(pre + 'N', D['N']), 'probs': pre + 'x'})
+        q = Dist(pre + 'q', 'Beta', pre + 'x', {'concentration1': P(pre + 'qa', [2.0]), 'concentration0': P(pre + 'qb', [2.0])})
     else:
         lam = {'id': pre + 'lam', 'type': 'TransformedParameter', 'transform': 'torch.distributions.ExpTransform',
                'x': P(pre + 'x', [0.2])}
@@ -140,7 +146,7 @@ def stubbed_sampler(make):
     import torch.distributions as D
 
     saved = {}
-    for cls in (D.Normal, D.Gamma):
+    for cls in (D.Normal, D.Gamma, D.Beta):  # the variational families used
         for meth in ('rsample', 'sample'):
             saved[(cls, meth)] = cls.__dict__.get(meth)
 
@@ -163,6 +169,8 @@ def generic(kind, i, k):
     u = ((i + 1) * 0.6180339887 + 0.137 * k) % 1.0
     if SAMPLER[kind] == 'Normal':
         return round(-0.9 + 2.3 * u, 6)
+    if SAMPLER[kind] == 'Beta':
+        return round(0.15 + 0.7 * u, 6)
     return round(0.25 + 1.9 * u, 6)
 
 
@@ -212,6 +220,26 @@ def symbolic_block(kind, n, pre, dic, d, V, dom):
 
         H = 0.5 + C_HALF_LOG_2PI + sn.log()
         qparams = [dic[pre + 'qm'], dic[pre + 'qs']]
+    elif kind == 'beta_binomial':
+        a, b, N = S('a'), S('b'), S('N')
+        d.uf_eval.setdefault('mod1', symtorch.ext_c14._mod1)
+        dom += [d.lt(0, sid(a)), d.lt(0, sid(b)), d.eq(d.uf('mod1', sid(N)), 0)]
+        for i in y._ids.tolist():  # integer counts 0 <= y_i <= N
+            dom += [d.eq(d.uf('mod1', i), 0), d.le(0, i), d.le(i, sid(N))]
+        qa, qb = a + y.sum(), b + n * N - y.sum()
+        dic[pre + 'qa'].tensor = qa
+        dic[pre + 'qb'].tensor = qb
+
+        def lbeta(u, v):
+            return torch.lgamma(u) + torch.lgamma(v) - torch.lgamma(u + v)
+
+        logZ = (torch.lgamma(N + 1) * n - torch.lgamma(y + 1).sum() - torch.lgamma(N - y + 1).sum() + lbeta(qa, qb) - lbeta(a, b))
+
+        def logq(z):
+            return (qa - 1) * z.log() + (qb - 1) * (1 - z).log() - lbeta(qa, qb)
+
+        H = (lbeta(qa, qb) - (qa - 1) * torch.digamma(qa) - (qb - 1) * torch.digamma(qb) + (qa + qb - 2) * torch.digamma(qa + qb))
+        qparams = [dic[pre + 'qa'], dic[pre + 'qb']]
     else:
         a, b = S('a'), S('b')
         dom += [d.lt(0, sid(a)), d.lt(0, sid(b))] + [d.le(0, i) for i in y._ids.tolist()]
@@ -278,6 +306,38 @@ def log_axioms(d, roots, mapping, guard):
     return out
 
 
+def binary_logit_axioms(d, roots):
+    """torch's Binomial.log_prob evaluates N*log(1+exp(-|l|)) with l = log(P) - log(1-P).  Instances of
+         0 < P < 1  =>  (l >= 0 => log(1+exp(-|l|)) == -log P)  and  (l <= 0 => log(1+exp(-|l|)) == -log(1-P))
+    (1 + (1-P)/P = 1/P and 1 + P/(1-P) = 1/(1-P)) for every such term that occurs."""
+    out = []
+    for X in d.topo(list(roots)):
+        if d.ops[X] != 'uf' or d.args[X][0] != 'log' or d.ops[d.args[X][1]] != 'add':
+            continue
+        p0, p1 = d.args[d.args[X][1]]
+        if p0 != 1:
+            p0, p1 = p1, p0
+        if p0 != 1 or d.ops[p1] != 'uf' or d.args[p1][0] != 'exp':
+            continue
+        m = d.args[p1][1]
+        if d.ops[m] != 'mul' or d.ops[d.args[m][0]] != 'const' or d.cval(d.args[m][0]) != -1 or d.ops[d.args[m][1]] != 'ite':
+            continue
+        l_ = d.args[d.args[m][1]][1]
+        if d.ops[l_] != 'add':
+            continue
+        for u, v in (d.args[l_], d.args[l_][::-1]):
+            if (d.ops[u] == 'uf' and d.args[u][0] == 'log' and d.ops[v] == 'mul' and d.ops[d.args[v][0]] == 'const'
+                    and d.cval(d.args[v][0]) == -1 and d.ops[d.args[v][1]] == 'uf' and d.args[d.args[v][1]][0] == 'log'):
+                lP, lQ = u, d.args[v][1]
+                Pn, Qn = d.args[lP][1], d.args[lQ][1]
+                if Qn != d.add(1, d.neg(Pn)):
+                    continue
+                guard = d.and_(d.lt(0, Pn), d.lt(Pn, 1))
+                out.append(d.or_(d.not_(guard), d.and_(d.or_(d.not_(d.le(0, l_)), d.eq(X, d.neg(lP))),
+                                                       d.or_(d.not_(d.le(l_, 0)), d.eq(X, d.neg(lQ))))))
+    return out
+
+
 def float_log_assumptions(d, objective, counts):
     """The code subtracts the FLOAT constant log(K) (math.log(K) in VR, torch.tensor(float(K)).log() in ELBO);
     the real-number identity needs it to be the real log K: one hypothesis per sample count K that occurs."""
@@ -304,16 +364,19 @@ def run_task(task, tr):
     fam, n, objective, oparams, shape = task
     shape = tuple(shape)
     label = task_label(task)
-    tr.bounds['models'] = ('normal-normal (known variance), gamma-exponential, gamma-Poisson (symbolic integer data), '
-                           'LogNormal/LogNormal through lambda=exp(phi) with the Jacobian term (data as observations and as '
+    tr.bounds['models'] = ('normal-normal (known variance), gamma-exponential, gamma-Poisson and beta-binomial (symbolic integer '
+                           'data), LogNormal/LogNormal through lambda=exp(phi) with the Jacobian term (data as observations and as '
                            'factors in lambda), two-block mean-field products; n <= 2 observations quick / 3 thorough; '
                            'all hyper-parameters, data and draws symbolic')
     tr.bounds['samples'] = 'sample shapes [S] and [S,K], S,K in {1,2,3}; VR alpha in {0,1/2,2} quick (+ -1,1/4,3 thorough); CUBO n in {2,3}'
-    tr.stubs.add('torch.distributions.Normal/Gamma .rsample/.sample: every call returns a tensor of fresh symbols z<k>[...] of '
-                 'shape sample_shape + batch_shape, constrained only to the support (Gamma: z > 0)')
+    tr.stubs.add('torch.distributions.Normal/Gamma/Beta .rsample/.sample: every call returns a tensor of fresh symbols z<k>[...] of '
+                 'shape sample_shape + batch_shape, constrained only to the support (Gamma: z > 0; Beta: eps <= z <= 1 - eps)')
     tr.assumptions.add('the float constants log(K) (math.log(K), torch.tensor(float(K)).log()) and log(sqrt(2 pi)) in the code '
                        'are read as the real numbers log K, log sqrt(2 pi)')
-    tr.assumptions.add('integer data of the Poisson model: "y is an integer" is the uninterpreted atom mod1(y) == 0; the '
+    tr.assumptions.add('supplied lemma instances (theorems of real analysis): exp/log/sqrt ground axioms; log(N*E) = log N + log E for the '
+                       'sums of equal terms; for the Binomial log-density 0<P<1 => log(1+exp(-|l|)) = -log P (l>=0) / -log(1-P) (l<=0) '
+                       'with l = log P - log(1-P); lgamma/digamma are uninterpreted (no Gamma recurrence is needed)')
+    tr.assumptions.add('integer data of the Poisson / Binomial models: "y is an integer" is the uninterpreted atom mod1(y) == 0; the '
                        'density identity proved does not use integrality')
     with tracing() as t:
         d = t.dag
@@ -373,7 +436,7 @@ def run_task(task, tr):
             lp2, lq2 = obj.p(), obj.q()
             snap2 = (t.pcs[len(snap1[0]):], t.denominators[len(snap1[1]):], t.domains[len(snap1[2]):])
             # ---- back-to-back request without any event
-            r3 = obj()
+            obj()
             c3 = calls[len(c1) + len(c2):]
         tr.witness_runs += 1
         tr.ops_checked += t.nchecked
@@ -393,6 +456,8 @@ def run_task(task, tr):
         ctx.update(t=t, blocks=blocks, L=L, dom=dom, Vh=Vh)
         if not analyse(ctx, 'first request', r1, lp, lq, c1, snap1):
             return
+        if any(v != 'refuted' for v in ctx.get('vac', [])):
+            tr.notes.append(f'{label}: satisfiability of the hypotheses undecided ({ctx["vac"]})')
         r1id = sid(r1)
         # ------------------------------------------------------------------ freshness of the second request
         r2id = sid(r2) if isinstance(r2, SymTensor) else None
@@ -429,7 +494,7 @@ def run_task(task, tr):
                 return
         # back-to-back request
         tr.obligation(f'{label}: back-to-back request draws again', nontrivial=False)
-        if not c3:
+        if CHECK_BACK_TO_BACK and not c3:
             wit = {nm: d.vals[i] for nm, i in V.items()}
             ok, detail = replay_fresh(task, wit, fire=False)
             if ok:
@@ -455,6 +520,8 @@ def analyse(ctx, which, r1, lp, lq, c1, snap):
             V[f'z{k}' + nm[nm.index('['):]] = i
             if SAMPLER[kind] == 'Gamma':
                 hyp0.append(d.lt(0, i))
+            if SAMPLER[kind] == 'Beta':
+                hyp0 += [d.le(d.const(EPS), i), d.le(i, d.const(1 - EPS))]
     ctx['V'] = V
     if not (isinstance(lp, SymTensor) and isinstance(lq, SymTensor) and isinstance(r1, SymTensor)):
         tr.inconc(f'{label}: densities are not symbolic')
@@ -484,10 +551,18 @@ def analyse(ctx, which, r1, lp, lq, c1, snap):
         else:
             g = d.eq(wflat[i], L)
             gl = f'{which}: draw {i}: log p(z, data) - log q(z) == log Z'
-        st = decide(ctx, gl, hyp0 + ground_axioms(d, [g]), g, signature(objective, oparams, shape, 'weight-differs-from-logZ'),
+        st = decide(ctx, gl, hyp0 + ground_axioms(d, [g]) + binary_logit_axioms(d, [g]), g, signature(objective, oparams, shape, 'weight-differs-from-logZ'),
                     kind='weights')
         lemmas.append(g)
         failed |= st != 'proved'
+        if i == 0 and st == 'proved':
+            # non-vacuity: the hypotheses used above (domain, posterior relation, axiom instances) are satisfiable
+            stv, _, _ = prove(d, hyp0 + ground_axioms(d, [g]) + binary_logit_axioms(d, [g]), d.FALSE, timeout=20.0, tr=tr,
+                              label='hypotheses satisfiable', parallel=True)
+            if stv == 'proved':
+                tr.inconc(f'{label}: the hypotheses of the per-draw identity are contradictory (vacuous proof)')
+                return False
+            ctx.setdefault('vac', []).append(stv)
     tr.sample({'case': label, 'log Z': d.to_str(L, 4)[:300], 'value': d.to_str(r1id, 3)[:300],
                'draws': sorted(x for x in V if x.startswith('z'))[:6], 'path_conditions': [d.to_str(c, 3)[:80] for c in pcs[:4]]})
     if failed:
@@ -529,6 +604,12 @@ def analyse(ctx, which, r1, lp, lq, c1, snap):
     hy += ground_axioms(d, [g_ab] + hy)
     sig = signature(objective, oparams, shape, 'value-differs-from-logZ')
     st, r, _ = prove(d, hy, g_ab, timeout=30.0, tr=tr, label=tl, parallel=True)
+    if st == 'proved':
+        stv, _, _ = prove(d, hy, d.FALSE, timeout=20.0, tr=tr, label='hypotheses satisfiable', parallel=True)
+        if stv == 'proved':
+            tr.inconc(f'{label}: the hypotheses of "{tl}" are contradictory (vacuous proof)')
+            return False
+        ctx.setdefault('vac', []).append(stv)
     if st != 'proved':
         # characterise: is it a multiple of log Z ?
         for mult, name in ((shape[0], 'returns-S-times-logZ'), (shape[0] * shape[-1], 'returns-SK-times-logZ')):
@@ -637,6 +718,29 @@ def concrete_block(kind, n, pre, vals):
         H = mp.mpf(1) / 2 + mp.log(2 * mp.pi) / 2 + mp.log(sn)
         support = (-mp.inf, mp.inf)
         centre = qm
+    elif kind == 'beta_binomial':
+        a = abs(getv(vals, pre + 'a[0]', D['a'][0])) or D['a'][0]
+        b = abs(getv(vals, pre + 'b[0]', D['b'][0])) or D['b'][0]
+        N = float(max(0, round(getv(vals, pre + 'N[0]', D['N'][0]))))
+        y = [float(min(N, max(0, round(v)))) for v in y]
+        A, B, NN = mp.mpf(a), mp.mpf(b), mp.mpf(N)
+        Y = [mp.mpf(v) for v in y]
+        qa, qb = A + sum(Y), B + n * NN - sum(Y)
+
+        def lbeta(u, v):
+            return mp.loggamma(u) + mp.loggamma(v) - mp.loggamma(u + v)
+
+        lbin = sum(mp.loggamma(NN + 1) - mp.loggamma(v + 1) - mp.loggamma(NN - v + 1) for v in Y)
+        logZ = lbin + lbeta(qa, qb) - lbeta(A, B)
+
+        def logjoint(z):
+            return (A - 1) * mp.log(z) + (B - 1) * mp.log(1 - z) - lbeta(A, B) + lbin + sum(v * mp.log(z) + (NN - v) * mp.log(1 - z) for v in Y)
+
+        T = {'a': [a], 'b': [b], 'N': [N], 'y': y, 'qa': [float(qa)], 'qb': [float(qb)]}
+        logq = lambda z: (qa - 1) * mp.log(z) + (qb - 1) * mp.log(1 - z) - lbeta(qa, qb)  # noqa: E731
+        H = lbeta(qa, qb) - (qa - 1) * mp.digamma(qa) - (qb - 1) * mp.digamma(qb) + (qa + qb - 2) * mp.digamma(qa + qb)
+        support = (0, 1)
+        centre = qa / (qa + qb)
     else:
         a = abs(getv(vals, pre + 'a[0]', D['a'][0])) or D['a'][0]
         b = abs(getv(vals, pre + 'b[0]', D['b'][0])) or D['b'][0]
@@ -676,7 +780,10 @@ def quadrature_logZ(cb):
     lo, hi = cb['support']
     c = cb['centre']
     ref = cb['logjoint'](c)
-    pts = [lo, c / 2 if lo == 0 else c - 3, c, 2 * c if lo == 0 else c + 3, hi]
+    if hi == 1:
+        pts = [0, c / 2, c, (1 + c) / 2, 1]
+    else:
+        pts = [lo, c / 2 if lo == 0 else c - 3, c, 2 * c if lo == 0 else c + 3, hi]
     val = mp.quad(lambda z: mp.exp(cb['logjoint'](z) - ref), pts)
     return mp.log(val) + ref
 
@@ -706,14 +813,13 @@ def draw_maker(task, vals, cbs, log):
         k = len(log)
         kind = cbs[k % len(cbs)]['kind']
         full = dist._extended_shape(sample_shape)
-        idx = [()] if not len(full) else None
         import itertools
 
         idx = list(itertools.product(*[range(s) for s in full]))
         out = []
         for i, ix in enumerate(idx):
             v = getv(vals, f'z{k}[' + ','.join(map(str, ix)) + ']', generic(kind, i, k))
-            if SAMPLER[kind] == 'Gamma' and v <= 0:
+            if SAMPLER[kind] == 'Gamma' and v <= 0 or SAMPLER[kind] == 'Beta' and not (0 < v < 1):
                 v = generic(kind, i, k)
             out.append(v)
         z = torch.tensor(out, dtype=torch.float64).reshape(full)
@@ -800,7 +906,7 @@ def replay_fresh(task, vals, fire):
         n1 = len(log)
         if fire:
             for kind, pre in blocks_of(fam):
-                for k in (('qm', 'qs') if SAMPLER[kind] == 'Normal' else ('qa', 'qb')):
+                for k in (('qm', 'qs') if SAMPLER[kind] == 'Normal' else ('qa', 'qb')):  # noqa: E501
                     dic[pre + k].fire_parameter_changed()
         v2 = obj()
         n2 = len(log) - n1
@@ -827,40 +933,37 @@ def tasks_for(tier):
     ts = []
     shapes1 = [(1,), (2,), (3,)]
     shapes2 = [(s, k) for s in (1, 2, 3) for k in (1, 2, 3)]
-
-    def objectives(thorough):
-        o = [('ELBO', {}), ('ELBO', {'entropy': True}), ('KLpq', {}), ('CUBO', {'n': 2.0}),
-             ('VR', {'alpha': 0.0}), ('VR', {'alpha': 0.5}), ('VR', {'alpha': 2.0})]
-        if thorough:
-            o += [('CUBO', {'n': 3.0}), ('VR', {'alpha': -1.0}), ('VR', {'alpha': 0.25}), ('VR', {'alpha': 3.0})]
-        return o
-
+    base = [('ELBO', {}), ('ELBO', {'entropy': True}), ('KLpq', {}), ('CUBO', {'n': 2.0}),
+            ('VR', {'alpha': 0.0}), ('VR', {'alpha': 0.5}), ('VR', {'alpha': 2.0})]
+    more = [('CUBO', {'n': 3.0}), ('VR', {'alpha': -1.0}), ('VR', {'alpha': 0.25}), ('VR', {'alpha': 3.0})]
+    multi = [('ELBO', {}), ('KLpq', {}), ('CUBO', {'n': 2.0}), ('VR', {'alpha': 0.5})]
     if tier == 'quick':
         for kind in KINDS:
-            n = 2 if kind in ('normal', 'gamma_poisson') else 1
-            for o, op in objectives(False):
-                for sh in ((2,), (3,)) if kind == 'normal' else ((2,),):
-                    ts.append((kind, n, o, op, sh))
-            for o, op in [('ELBO', {}), ('KLpq', {}), ('CUBO', {'n': 2.0}), ('VR', {'alpha': 0.5})]:
-                for sh in ((2, 2), (2, 3)) if kind in ('normal', 'gamma_exp') else ((2, 2),):
-                    ts.append((kind, n, o, op, sh))
-        ts.append(('normal+gamma_exp', 1, 'ELBO', {}, (2,)))
-        ts.append(('lognormal_obs+gamma_poisson', 1, 'VR', {'alpha': 0.5}, (2,)))
+            for o, op in base:
+                for sh in shapes1:
+                    ts.append((kind, 2, o, op, sh))
+            for o, op in multi:
+                for sh in ((1, 2), (2, 1), (2, 2), (2, 3), (3, 2)):
+                    ts.append((kind, 1 if sh != (2, 2) else 2, o, op, sh))
+        for fam in ('normal+gamma_exp', 'lognormal_obs+gamma_poisson', 'beta_binomial+lognormal_factor'):
+            for o, op in [('ELBO', {}), ('ELBO', {'entropy': True}), ('KLpq', {}), ('VR', {'alpha': 0.5})]:
+                ts.append((fam, 1, o, op, (2,)))
     else:
         for kind in KINDS:
             for n in (1, 2, 3):
-                for o, op in objectives(True):
+                for o, op in base + more:
                     for sh in shapes1:
                         ts.append((kind, n, o, op, sh))
                     if not op.get('entropy') and n <= 2:
                         for sh in shapes2:
-                            if n == 1 or sh in ((2, 2), (2, 3), (3, 2), (1, 3), (3, 1)):
-                                ts.append((kind, n, o, op, sh))
+                            ts.append((kind, n, o, op, sh))
+            ts.append((kind, 1, 'ELBO', {'entropy': True}, (2, 2)))  # the flag is ignored by the multi-sample branch
         for i, ka in enumerate(KINDS):
             for kb in KINDS[i:]:
                 for o, op in [('ELBO', {}), ('ELBO', {'entropy': True}), ('KLpq', {}), ('CUBO', {'n': 2.0}), ('VR', {'alpha': 0.5})]:
                     ts.append((f'{ka}+{kb}', 1, o, op, (2,)))
                 ts.append((f'{ka}+{kb}', 1, 'ELBO', {}, (2, 2)))
+                ts.append((f'{ka}+{kb}', 2, 'VR', {'alpha': 2.0}, (3,)))
     return ts
 
 
@@ -870,9 +973,10 @@ def body(chk):
                        'posterior; the solver proves log p - log q == log Z per draw (ring identity in the uninterpreted atoms '
                        'log(.), lgamma(.)), then objective == log Z from the per-draw identities, plus freshness of the draws '
                        'between evaluation requests (disjoint symbols, renaming invariance)')
-    chk.total.bounds['outside'] = ('dense multivariate normal family (needs a Cholesky factor: not polynomial), beta-binomial '
-                                   '(torch clamps probabilities to [eps, 1-eps]: the identity is not exact), score-function surrogate '
-                                   '(ELBO score=True), KLpqImportance and SELBO (gradient surrogates / mixtures) are not covered')
+    chk.total.bounds['outside'] = ('dense multivariate normal family (needs a Cholesky factor: not polynomial), score-function surrogate '
+                                   '(ELBO score=True), KLpqImportance and SELBO (gradient surrogates / mixtures) are not covered; '
+                                   'beta-binomial: torch clamps Binomial probabilities to [eps, 1-eps], the identity is exact (and '
+                                   'proved) for draws inside that interval only')
     pmap(run_task, tasks_for(chk.tier), chk.total)
 
 
